@@ -2,6 +2,7 @@ package props
 
 import (
 	"fmt"
+	"regexp"
 	"runtime"
 	"sort"
 	"strings"
@@ -123,6 +124,9 @@ func c17Value(id string) decoration.Decoration {
 	return d
 }
 
+// the top rule of a table drawn with c17Value(id) is "+" followed by id repeated
+var c17RuleID = regexp.MustCompile(`^\+(c[0-9]+-[0-9]+)`)
+
 type c17OpRec struct {
 	Client int    `json:"client"`
 	Call   int64  `json:"call"`
@@ -145,11 +149,13 @@ func c17Concurrent(c *Ctx, i int, r *gen.R) {
 	for cl := range scripts {
 		for k := 0; k < opsPer; k++ {
 			name := names[r.Intn(len(names))]
-			switch r.Intn(5) {
+			switch r.Intn(6) {
 			case 0, 1:
 				scripts[cl] = append(scripts[cl], step{'R', name, fmt.Sprintf("c%d-%d", cl, k)})
 			case 2, 3:
 				scripts[cl] = append(scripts[cl], step{'N', name, ""})
+			case 4:
+				scripts[cl] = append(scripts[cl], step{'T', name, ""})
 			default:
 				scripts[cl] = append(scripts[cl], step{'L', "", ""})
 			}
@@ -171,6 +177,27 @@ func c17Concurrent(c *Ctx, i int, r *gen.R) {
 			d := decoration.Named(s.name)
 			if d != decoration.EmptyDecoration {
 				out.Val = d.Horizontal
+			}
+		case 'T':
+			// a render by name: the decoration the table was drawn with names the registration it observed
+			in.Op = 'N'
+			tt := texttable.New()
+			tt.AddRowItems("x")
+			if _, err := tt.SetDecorationNamed(s.name); err == nil {
+				text, rerr := tt.Render()
+				m := c17RuleID.FindStringSubmatch(text)
+				if rerr != nil || m == nil {
+					mu.Lock()
+					listProblems = append(listProblems, fmt.Sprintf("render by name %q: SetDecorationNamed succeeded but Render gave %q, %v", s.name, text, rerr))
+					mu.Unlock()
+				} else {
+					out.Val = m[1]
+					c.Rec.Count("renders_by_name_identifying_a_registration", 1)
+				}
+			} else if text, rerr := tt.Render(); rerr == nil || text != "" {
+				mu.Lock()
+				listProblems = append(listProblems, fmt.Sprintf("render by name %q: SetDecorationNamed failed (%v) but Render gave %q, %v", s.name, err, text, rerr))
+				mu.Unlock()
 			}
 		case 'L':
 			all := decoration.RegisteredDecorationNames()
@@ -238,7 +265,7 @@ func c17Concurrent(c *Ctx, i int, r *gen.R) {
 		c.Rec.Count("histories_with_overlapping_operations", 1)
 	}
 	if len(listProblems) > 0 {
-		c.Rec.Violate("listing-malformed", "a listing taken during concurrent registration is malformed: "+listProblems[0], desc)
+		c.Rec.Violate("listing-or-render-malformed", "during concurrent registration: "+listProblems[0], desc)
 		return
 	}
 	res, _ := porcupine.CheckOperationsVerbose(c17Model, ops, 20*time.Second)
@@ -414,7 +441,7 @@ func init() {
 		Level:  "exploration",
 		Race:   true,
 		Shards: raceShards,
-		Rule: "built with -race; shards run at GOMAXPROCS = all cores, 2, 4, 1. phase 0: concurrent histories of 2-8 clients x 2-8 operations (Register with a unique value per call / Named / RegisteredDecorationNames) on 1-4 names of a fresh namespace, released by one barrier, followed (after all clients returned) by one lookup per name and one listing; every operation is recorded at the client boundary with call/return stamps from one atomic counter and the history is checked with porcupine against a sequential name->value map (listing = sorted key set); every listing is also checked for sortedness, duplicates and the six built-ins. " +
+		Rule: "built with -race; shards run at GOMAXPROCS = all cores, 2, 4, 1. phase 0: concurrent histories of 2-8 clients x 2-8 operations (Register with a unique value per call / Named / RegisteredDecorationNames / render a text table by name, where the rule glyphs of the output name the registration that was observed) on 1-4 names of a fresh namespace, released by one barrier, followed (after all clients returned) by one lookup per name and one listing; every operation is recorded at the client boundary with call/return stamps from one atomic counter and the history is checked with porcupine against a sequential name->value map (listing = sorted key set); every listing is also checked for sortedness, duplicates and the six built-ins. " +
 			"phase 1: sequential histories of 3-30 operations compared directly with a Go map. phase 2: fail-closed probes (never-registered names and names registered to the empty decoration): SetDecorationNamed must return an error, Render/RenderTo must refuse with no output, a known name must recover. " +
 			"distinct_nontrivial counts distinct interleaving signatures (order of client ids by call stamp, together with the scripts); the race detector's log is parsed by the parent and every report with a tabular frame is a violation.",
 		Assumptions: []string{
